@@ -192,7 +192,7 @@ PROPS['C01'] = {
              {'name': 'clang', 'flavour': 'clang-asan', 'driver': 'drv_c01', 'env': {'PV_SCALE': '15'}, 'shards': 6},
              {'name': 'native', 'flavour': 'asan-native', 'driver': 'drv_c01', 'env': {'PV_SCALE': '10'}, 'shards': 4},
              {'name': 'asan-dbg', 'flavour': 'asan-dbg', 'driver': 'drv_c01', 'env': {'PV_SCALE': '10'}, 'shards': 4}],
-    'require': {'concurrent.roundtrips_equal_model': 15000, 'auto.ok': 50000, 'auto.mult_lang': 100, 'ambiguous.constructed': 500, 'roundtrip.how.created': 5000, 'roundtrip.how.crypted': 5000, 'original_seed_observed.crypted': 4000, 'original_seed_observed.created': 4000, 'axes.cases': 3000, 'second_generation.ok': 100000, 'roundtrip.decodes_with_failing_allocator': 5000},
+    'require': {'concurrent.roundtrips_equal_model': 15000, 'auto.ok': 50000, 'auto.mult_lang': 100, 'ambiguous.constructed': 500, 'roundtrip.how.created': 5000, 'roundtrip.how.crypted': 5000, 'original_seed_observed.crypted': 4000, 'roundtrip.created_at_an_out_of_range_clock': 500, 'original_seed_observed.created': 4000, 'axes.cases': 3000, 'second_generation.ok': 100000, 'roundtrip.decodes_with_failing_allocator': 5000},
 }
 MANIFEST_TEXT['C01'] = {'technique': 'runtime monitoring: encode/decode round trips observed through every seed observer vs reference model (ASan/UBSan, NDEBUG and assertion-enabled builds)',
     'text': 'Seeds (boundary-biased and random; created, loaded or encrypted) are encoded in every language for boundary and random coins under all 8 enabled-feature masks, compared with the model phrase, and decoded by both decoders; the result is compared through store bytes, birthday, all feature masks, encrypted flag and the full PBKDF2 argument list. Auto-detection must return the same seed and language or MULT_LANG exactly when the model matcher finds a second recognising language; ambiguous phrases are constructed for every overlapping language pair. Every coin, birthday and feature value is visited at least once. A clang-built stripe of the same workload guards against compiler-dependent behaviour. Every decoded seed is encoded again (same and another language, same and another coin) and that second-generation phrase must equal the model\'s and decode again. A last section repeats round trips from 8 threads at once (yields inside the dependency callbacks). A sample of the round trips decodes the own phrase with the allocator armed (the only error allowed is MEMORY); a stripe runs on a library built with -funsigned-char.',
